@@ -5,6 +5,11 @@
 // real function on symbolic inputs and an arbitrary pre-state, assert every `OBL …` ensures) and a
 // *contract stub* `<fn>_contract` that callers' harnesses substitute with #[kani::stub].
 use super::*;
+// named explicitly: the harness must not depend on which of these the file under verification happens to import
+use crate::error::ContractError;
+use crate::storage_types::DataKey;
+use crate::types::{Proof, ProofSignature, ProofSigner, WeightedSigner, WeightedSigners};
+use soroban_sdk::{Bytes, BytesN, Env};
 use soroban_sdk::shim::{self, inst, pers, Wordy, Words};
 use soroban_sdk::xdr::ToXdr;
 use soroban_sdk::Symbol;
@@ -493,7 +498,14 @@ fn validate_signatures_case(pattern: &[bool]) {
         "OBL C01.validate_signatures_sound_bounded: true only if the entries carrying a valid signature over this digest weigh at least the threshold (every counted signature was verified)"
     );
     soroban_sdk::obl!(shim::no_effects(), "OBL C01.validate_signatures_pure_bounded");
-    kani::cover!(r, "COVER c01_vs accepted");
+    // (the real function never accepts a proof without a signed entry, so `accepted` is demanded reachable only for the other patterns)
+    let mut any_signed = false;
+    let mut i = 0;
+    while i < n {
+        any_signed = any_signed | pattern[i];
+        i += 1;
+    }
+    kani::cover!(r || !any_signed, "COVER c01_vs accepted (where the pattern has a signed entry)");
     kani::cover!(!r, "COVER c01_vs rejected");
 }
 macro_rules! vs_case {
